@@ -78,7 +78,14 @@ func c05Scenarios(tier string) []e1lib.Scenario {
 		if c.K >= 5 && (c.Stage == "partition" || c.Stage == "fmap") {
 			b = bound4
 		}
-		out = append(out, e1lib.Scenario{Name: stageName(c), Root: func() { stage.Scenario(c) }, Check: c05Check(c), Bound: b, Sample: c,
+		var done []string
+		for _, n := range stageRef(c).names {
+			done = append(done, n+"-eof")
+		}
+		if hasErrCh(c.Stage) {
+			done = append(done, "err-eof")
+		}
+		out = append(out, e1lib.Scenario{Name: stageName(c), Root: func() { stage.Scenario(c) }, Check: c05Check(c), Bound: b, Sample: c, RealDone: done,
 			// the result of these scenarios is deterministic by design (one outcome); a case is non-trivial
 			// when there is something to reorder: at least two elements and more than one schedule
 			Nontrivial: func(outcomes, execs, states int) bool { return c.K >= 2 && execs > 1 }})
